@@ -1241,12 +1241,16 @@ def run(ctx):
         "distinct_nontrivial": stats["bw_truncating_scripts"] + stats["bp_collision_scripts"],
         "rule": "bw: generated write_data_block sequences against the real block_writer.c (1..14 files of 1..6 blocks, sizes from a "
                 "1..3-element set, 1..3-letter alphabet, 0..3-bit checksums honest or arbitrary, 55% repeated blocks, 45% files derived "
-                "from an earlier file by prefix/extension/one flipped bit, sparse blocks, sentinels, fragment blocks between files, "
-                "sometimes 4095..9000-byte blocks). bp: files through the real block processor + hash table + thread pool linked with "
-                "xxh32 truncated to 0..8 bits (block size 8..64 and 4096; toy RLE / gzip / none; 1..4 workers; backlog 3..30; 1..40 "
-                "files from <=5 distinct blocks and <=8 tails of <=3 sizes; DONT_FRAGMENT/DONT_DEDUPLICATE/DONT_COMPRESS/DONT_HASH/"
-                "IGNORE_SPARSE, incl. all-zero nosparse tails and dont_compress twins of compressible tails). tools: gensquashfs/rdsquashfs/tar2sqfs/sqfs2tar with 0..8-bit checksum, gzip/xz/lz4/zstd, -b 4096.."
-                "131072, -j 1..16. non-trivial = bw script in which a LAST call truncated the output (deduplication hit) + bp script in "
+                "from an earlier file by prefix/extension/one flipped bit, sparse blocks, sentinels, fragment blocks between files; every "
+                "tenth script at file offsets around 4 GiB through the harness' virtual base), plus multi-chunk scripts (1..3 blocks of "
+                "4095..9000 bytes, one checksum, differences only behind the first 4096-byte chunk) and long-history scripts (150..400 "
+                "stored blocks). bp: files through the real block processor + hash table + thread pool linked with xxh32 truncated to "
+                "0..8 bits (block size 8..64 and 4096; toy RLE / gzip / none; 1..4 workers; backlog 3..30; 1..40 files from <=5 distinct "
+                "blocks and <=8 tails of <=3 sizes; DONT_FRAGMENT/DONT_DEDUPLICATE/DONT_COMPRESS/DONT_HASH/IGNORE_SPARSE, incl. all-zero "
+                "nosparse tails and dont_compress twins of compressible tails; every 80th script 40..300 distinct tails + duplicates), the "
+                "whole main-thread event order (pool submit / dequeue / write_data_block) replayed into the composed Lean model. tools: "
+                "gensquashfs/rdsquashfs/tar2sqfs/sqfs2tar with 0..8-bit checksum, gzip/xz/lz4/zstd, -b 4096..131072, -j 1..16. "
+                "non-trivial = bw script in which a LAST call truncated the output (deduplication hit) + bp script in "
                 "which a (size, checksum) match between different contents was decided by the byte comparison",
         "input_distribution": {"fragment_comparisons_by_place_and_answer": {k[4:]: v for k, v in stats.items() if k.startswith("cmp_")}},
         "stats": dict(stats),
@@ -1255,18 +1259,25 @@ def run(ctx):
     })
     return ctx.finish(LEVEL, trusted_extra=[
         "modelled: lib/sqfs/src/block_writer.c, lib/util/src/file_cmp.c, the sqfs_file_t contract of lib/sqfs/src/io/file.c (POSIX branch); "
-        "process_completed_fragment / chunk_info_equals / load_frag_block / fblk_in_flight handling of lib/sqfs/src/block_processor; "
-        "the 64-bit history word as its two 32-bit halves; hash_table.c as a list (order shown immaterial by frag_lookup_unique)",
-        "harness/weak_xxh.c (the checksum hook the property prescribes), harness/h_c08.c (in-memory sqfs_file_t, logging wrappers, "
-        "link-time --wrap of the two hash-table entry points), the Python read-back oracle"],
+        "lib/sqfs/src/block_processor/{frontend.c, backend.c, block_processor.c}: front end, process_block, I/O sequence numbers, release "
+        "loop, process_completed_block, process_completed_fragment / chunk_info_equals / load_frag_block / fblk_in_flight; "
+        "the 64-bit history word as its two 32-bit halves; offsets and sizes as naturals; hash_table.c as a list (order shown immaterial "
+        "by frag_lookup_unique); the pool as a FIFO (threadpool.h contract, C09); the schedule of the main thread as an input",
+        "harness/weak_xxh.c (the checksum hook the property prescribes), harness/h_c08.c (in-memory sqfs_file_t with a virtual base, "
+        "logging wrappers around the real block writer and the real thread pool, link-time --wrap of the two hash-table entry points), "
+        "the Python read-back oracle"],
         assumptions=[
-            "codec contract unc(cmp x) = x for gzip/xz/lz4/zstd (hypothesis `Codec.RoundTrip` of the fragment theorems; proved for the toy codec, "
-            "exercised for the real ones by the read-back runs)",
-            "block-writer theorems assume the FIRST/LAST protocol `wf` of the call stream and blocks < 2^24 bytes; the protocol is checked on every "
-            "logged call stream of the real block processor, not proved here (C02 models the front end)",
-            "fragment theorems assume non-empty fragments (frontend.c only submits tail ends of size % block_size > 0 bytes)",
-            "when a fragment block moves from in flight to disk is an input of the fragment model (all timings are covered by the theorems; the "
-            "real timings come from the real pool)"])
+            "codec contracts unc(cmp x) = x and |cmp x| <= block size for gzip/xz/lz4/zstd (hypotheses `Codec.RoundTrip` / `Fits`; proved "
+            "for the toy codec, exercised for the real ones by the read-back runs)",
+            "block-writer theorems assume the protocol `wf` / `wfS` of the call stream and blocks < 2^24 bytes; both are proved of the "
+            "composed model's call stream for every schedule (stream_wfS) and evaluated (Lean predicates) on every logged call stream "
+            "of the real block processor",
+            "the composed model's error exits other than schedule refusal are not proved unreachable; on every run the model accepts the "
+            "real schedule without error",
+            "fragment theorems assume non-empty fragments (proved of the composed model: the front end only submits tail ends of "
+            "size % block_size > 0 bytes)",
+            "the 4 GiB-offset scripts compare the real writer (virtual base) with the model run at offset 0, shifted: translation "
+            "invariance of the model is used, not proved"])
 
 
 def replay(ctx, path):
